@@ -624,5 +624,40 @@ def h_function_mapping():
     return Harness("function-mapping", run, spec=Spec())
 
 
+def h_argument_names():
+    """DataAccessObject._argument_names: every parameter of the original class's __init__ except self, in declaration order --
+    positional-or-keyword AND keyword-only ones (dataclass fields declared kw_only, e.g. back references): a name that is left
+    out comes back as its default after from_dao.  Assumed: inspect.signature(f).parameters is the ordered mapping name ->
+    Parameter(name, kind) of f."""
+    def run(vm):
+        ctx = vm.ctx
+        DAO = vm.loader.cls("krrood.ormatic.dao", "DataAccessObject")
+        kinds = {k: Opaque("inspect.Parameter." + k) for k in ("POSITIONAL_ONLY", "POSITIONAL_OR_KEYWORD", "VAR_POSITIONAL", "KEYWORD_ONLY", "VAR_KEYWORD")}
+        ParameterCls = vm.alloc(vm.ext("object"), dict(kinds, empty=Opaque("inspect.Parameter.empty")), tag="inspect.Parameter")
+        vm.loader.externals[("inspect", "Parameter")] = ParameterCls
+        init = Builtin("original-class-__init__", lambda it, fr, a, k: None)
+        params = [("self", "POSITIONAL_OR_KEYWORD"), ("a", "POSITIONAL_OR_KEYWORD"), ("b", "POSITIONAL_OR_KEYWORD"), ("world", "KEYWORD_ONLY"), ("note", "KEYWORD_ONLY")]
+
+        def signature(it, fr, a, k):
+            if a[0] is not init:
+                raise AssertionError("signature of another callable")
+            o = it.alloc(it.ext("object"), {}, tag="signature")
+            o.fields["parameters"] = make_dict([(n, it.alloc(it.ext("object"), {"name": n, "kind": kinds[kd], "default": ParameterCls.fields["empty"]}, tag="parameter-" + n))
+                                                for n, kd in params])
+            return o
+        vm.builtins = dict(vm.builtins)
+        vm.builtins["inspect.signature"] = Builtin("inspect.signature", signature)
+        vm.loader.externals[("inspect", "signature")] = vm.builtins["inspect.signature"]
+        vm.spec.opaque_hooks["eq"] = lambda it, x, y: x is y
+        original = vm.alloc(vm.ext("object"), {"__init__": init}, tag="original-class")
+        vm.spec.stubs["HasGeneric.original_class"] = lambda it, a, k: original
+        dao = vm.alloc(DAO, {}, tag="dao")
+        r = vm.call_method(dao, "_argument_names")
+        got = list(r.items) if isinstance(r, PyList) else r
+        ctx.check("DataAccessObject._argument_names::every-constructor-parameter-but-self-in-order-keyword-only-ones-included",
+                  z3.BoolVal(got == ["a", "b", "world", "note"]), detail=repr(got))
+    return Harness("argument-names", run, spec=Spec())
+
+
 def harnesses():
-    return [h_function_mapping(), h_to_dao(), h_top_level_to_dao(), h_alternative_to_dao(), h_to_dao_below_alternative_parent(), h_from_dao(), h_from_dao_alternative(), h_from_dao_below_alternative_parent(), h_states(), h_is_data_column(), h_canary()]
+    return [h_argument_names(), h_function_mapping(), h_to_dao(), h_top_level_to_dao(), h_alternative_to_dao(), h_to_dao_below_alternative_parent(), h_from_dao(), h_from_dao_alternative(), h_from_dao_below_alternative_parent(), h_states(), h_is_data_column(), h_canary()]
